@@ -501,6 +501,73 @@ func (c *cloner) etaExpand(a ast.Expr) {
 	c.eta[a] = lit
 }
 
+// unrollRange writes `for _, v := range [...]T{a, b} { body }` out as `{ body[v:=a] } { body[v:=b] }`
+// when the elements are stable expressions, the body calls an absorbable helper, does not assign v and
+// contains no branch statement: a helper applied to each of a few named places (`for _, p := range
+// [...]*int{&o.ReadBufferCap, &o.WriteBufferCap} { normalise(p) }`) is then seen applied to each place.
+func (c *cloner) unrollRange(x *ast.RangeStmt) []ast.Stmt {
+	if c.in == nil || x.Tok != token.DEFINE || x.Value == nil {
+		return nil
+	}
+	if x.Key != nil {
+		if id, ok := x.Key.(*ast.Ident); !ok || id.Name != "_" {
+			return nil
+		}
+	}
+	vid, ok := x.Value.(*ast.Ident)
+	if !ok || vid.Name == "_" {
+		return nil
+	}
+	lit, ok := ast.Unparen(x.X).(*ast.CompositeLit)
+	if !ok || len(lit.Elts) == 0 || len(lit.Elts) > 8 {
+		return nil
+	}
+	if tv, ok := c.src.Types[lit]; ok {
+		switch tv.Type.Underlying().(type) {
+		case *types.Array, *types.Slice:
+		default:
+			return nil
+		}
+	} else {
+		return nil
+	}
+	for _, e := range lit.Elts {
+		if _, isKV := e.(*ast.KeyValueExpr); isKV || !stableExpr(c.src, e) {
+			return nil
+		}
+	}
+	vobj := c.src.Defs[vid]
+	if vobj == nil || assignedIn(c.src, x.Body, vobj) {
+		return nil
+	}
+	helper, branch := false, false
+	ast.Inspect(x.Body, func(n ast.Node) bool {
+		switch y := n.(type) {
+		case *ast.BranchStmt, *ast.LabeledStmt, *ast.DeferStmt, *ast.ReturnStmt, *ast.FuncLit:
+			branch = true
+		case *ast.CallExpr:
+			if fn, _ := c.callee(c.src, y); fn != nil {
+				helper = true
+			}
+		}
+		return !branch
+	})
+	if !helper || branch {
+		return nil
+	}
+	var out []ast.Stmt
+	for _, e := range lit.Elts {
+		sub := *c
+		sub.subst = map[types.Object]ast.Expr{}
+		for k, v := range c.subst {
+			sub.subst[k] = v
+		}
+		sub.subst[vobj] = e
+		out = append(out, sub.block(x.Body))
+	}
+	return out
+}
+
 // ---- which calls are absorbed ----
 
 func (c *cloner) callee(info *types.Info, call *ast.CallExpr) (*types.Func, *ast.Ident) {
@@ -825,9 +892,53 @@ func (in *inliner) normaliseDecl1(pk *packages.Package, fn *types.Func, d *ast.F
 	c := &cloner{src: pk.TypesInfo, dst: pk.TypesInfo, in: in, pk: pk, stack: []*types.Func{fn}, top: d.Body}
 	c.curSig, _ = fn.Type().(*types.Signature)
 	body := c.block(d.Body)
+	c.dropAbsorbedClosures(body)
 	nd := *d
 	nd.Body = body
 	return &nd
+}
+
+// dropAbsorbedClosures removes `v := func(…) { … }` from the normalised body when every call of v was
+// absorbed (v is mentioned nowhere else any more): the rules would otherwise judge the dead literal as
+// a function of its own (a close cause that is a parameter, a write without its guard).
+func (c *cloner) dropAbsorbedClosures(body *ast.BlockStmt) {
+	mentioned := map[types.Object]int{}
+	ast.Inspect(body, func(n ast.Node) bool {
+		if id, ok := n.(*ast.Ident); ok {
+			if o := c.dst.Uses[id]; o != nil {
+				mentioned[o]++
+			}
+		}
+		return true
+	})
+	var prune func(list []ast.Stmt) []ast.Stmt
+	prune = func(list []ast.Stmt) []ast.Stmt {
+		out := list[:0:0]
+		for _, st := range list {
+			if as, ok := st.(*ast.AssignStmt); ok && as.Tok == token.DEFINE && len(as.Lhs) == 1 && len(as.Rhs) == 1 {
+				if id, ok := as.Lhs[0].(*ast.Ident); ok {
+					if v, ok := c.dst.Defs[id].(*types.Var); ok && c.in.litFuncs[v] != nil && mentioned[v] == 0 {
+						if _, isLit := ast.Unparen(as.Rhs[0]).(*ast.FuncLit); isLit {
+							continue
+						}
+					}
+				}
+			}
+			out = append(out, st)
+		}
+		return out
+	}
+	ast.Inspect(body, func(n ast.Node) bool {
+		switch y := n.(type) {
+		case *ast.BlockStmt:
+			y.List = prune(y.List)
+		case *ast.CaseClause:
+			y.Body = prune(y.Body)
+		case *ast.CommClause:
+			y.Body = prune(y.Body)
+		}
+		return true
+	})
 }
 
 // block clones a block, absorbing helper calls in statement position.
@@ -1035,6 +1146,9 @@ func (c *cloner) stmt1(s ast.Stmt) []ast.Stmt {
 		c.copyInfo(x, n)
 		return []ast.Stmt{n}
 	case *ast.RangeStmt:
+		if out := c.unrollRange(x); out != nil {
+			return out
+		}
 		n := &ast.RangeStmt{For: x.For, TokPos: x.TokPos, Tok: x.Tok, Range: x.Range}
 		if x.Key != nil {
 			n.Key = c.node(x.Key).(ast.Expr)
